@@ -26,8 +26,10 @@ const rule = "backend responses from a grammar (0-2 interim 1xx, final status 20
 	"distinct = SHA-256 of the canonical case"
 
 var (
-	rec1 = vh.NewRecorder("C03", "http1", rule)
-	rec2 = vh.NewRecorder("C03", "h2c", rule)
+	rec1 = vh.NewRecorder("C03", "http1", rule+
+		" Later additions: end-to-end field names resembling hop-by-hop ones (Proxy-Status, Proxy-Support, Proxy-Cache-Id, Upgrade-Hint, ...).")
+	rec2 = vh.NewRecorder("C03", "h2c", rule+
+		" Later additions: end-to-end field names resembling hop-by-hop ones (Proxy-Status, Proxy-Support, Proxy-Cache-Id, Upgrade-Hint, ...).")
 )
 
 func TestMain(m *testing.M) { vh.Main(m, rec1, rec2) }
